@@ -1302,11 +1302,11 @@ impl ObjectFile {
             (ma, mb) => ma.or(mb)
         };
         for (addr, linked_addr) in relocations {
-            // TODO: handle case where the address needed is not found in block map
-            // should really only occur from invalid manipulation of obj file
-            a_obj.get_mut(addr)
-                .unwrap_or_else(|| unreachable!("object file should have had address x{addr:04X} bound"))
-                .replace(linked_addr);
+            // The address is missing from the block map only if the object file was manipulated
+            // (e.g., read from an untrusted serialization); there is no word to patch then.
+            if let Some(word) = a_obj.get_mut(addr) {
+                word.replace(linked_addr);
+            }
         }
 
         Ok(a_obj)
